@@ -5,6 +5,9 @@ From Coq Require Import NArith ZArith List Lia Bool.
 Require Import Rules Sym SymRules1 SymRules2 SymRules3 SymRules4.
 Require Import Board Move GameOver Tps Symmetry Refine SymCode1 Canon2 SymCode2 SymCode3 SymCode4.
 Require Import Preserve1 Preserve6 GameOverFacts2.
+Require TpsFacts5 PreserveEx.
+Require Import Generated.Consts.
+Require Import Import3 Import4 Import5 Import6.
 Import ListNotations.
 Close Scope Z_scope. Close Scope N_scope.
 
@@ -94,10 +97,8 @@ Print Assumptions C14_transform_move_panics.
 (* ---- DESIGN 5.14 move_equivariant, through C01: for p, q satisfying the C01 invariant (c01_inv = the hypotheses of move_refines_rules:
    size 3..8, board_ok, reserves < 256, no stack above 64 - size) with abs q = img k (abs p), Position.Move on q with TransformMove's image
    of m succeeds/fails exactly as Move on p with m, the results correspond again, and nothing panics.
-   PARTIAL with respect to DESIGN's statement: q is any position that shows the image, not yet Symmetry.image (the rebuild through
-   from_squares: abs (image p s) = img k (abs p) is not proved here), and Pass (type code 1) is excluded as in C01.
-   symmetries_exact (and abs (image p s) = img k (abs p), which also needs the reserves of p to be the default counts minus the pieces on
-   the board, because image rebuilds them through from_squares) is not proved: covered by the correspondence and the independent oracle. ---- *)
+   Stated for ANY position q that shows the image (hence `_partial` in the name); the instance q := Symmetry.image p s is
+   C14_move_equivariant / C14_move_commutes below.  Pass (type code 1) is excluded as in C01. ---- *)
 Theorem C14_move_equivariant_partial : forall k p q m, k < 8 -> c01_inv p -> c01_inv q -> abs q = img k (abs p) -> transformable m -> mT m <> 1%N ->
   match transform_move (csym (N.to_nat (size p)) k) m with
   | Ok m' => match mv p m, mv q m' with
@@ -126,12 +127,146 @@ Proof. exact move_equivariant64_code. Qed.
 Print Assumptions C14_move_equivariant64_partial.
 
 (* ---- DESIGN 5.14 gameover_invariant, through C02 (game_over_correct): positions satisfying C02's invariant that show a board and its image
-   have the same GameOver verdict and the same WinDetails (over, reason, winner, both flat counts).  PARTIAL in the same respect as
-   move_equivariant: q is any position showing the image, not yet Symmetry.image. ---- *)
+   have the same GameOver verdict and the same WinDetails (over, reason, winner, both flat counts).  For any q showing the image; the instance
+   q := Symmetry.image p s is C14_gameover_invariant below. ---- *)
 Theorem C14_gameover_invariant_partial : forall k p q, k < 8 -> GameOverFacts2.inv p -> GameOverFacts2.inv q -> abs q = img k (abs p) ->
   game_over q = game_over p /\ win_details q = win_details p.
 Proof. exact gameover_invariant. Qed.
 Print Assumptions C14_gameover_invariant_partial.
+
+(* ==================== THE REBUILT IMAGES: Symmetry.image, Symmetry.symmetries (Import3-6.v) ====================
+   image basis p s   what symmetry.Symmetries builds for the coordinate map s: the board whose square s(x,y) is Position.At(x,y), through
+                     tak.FromSquares (on tak.New with the DEFAULT configuration) with p's ply number.
+   csym n k          the k-th entry of the code's table symmetries(n) (int8 flips);  imgk p k := image gen_basis p (csym (size p) k).
+   Two hypotheses on p beyond the C01 invariant pos_ok, both forced by the model's FromSquares (default piece counts, default flag):
+     reserves_match_board p (TpsFacts5.v)  p's four reserve counters are the default counts of its size minus the pieces on its board
+                                           (true at tak.New with the default counts and preserved by every move: C10, C14_move_commutes);
+     black_wins_ties p = false.
+   Both hold again for every image and every successor, so the theorems compose along games and orbits. *)
+
+(* the rebuild satisfies the invariant, for ANY coordinate map and without the two hypotheses ... *)
+Theorem C14_image_pos_ok : forall p s, pos_ok p -> pos_ok (image gen_basis p s).
+Proof. exact image_pos_ok. Qed.
+Print Assumptions C14_image_pos_ok.
+
+(* ... and shows the permuted board: size, squares and ply need neither hypothesis ... *)
+Theorem C14_image_abs_board : forall k p, k < 8 -> pos_ok p ->
+  let q := image gen_basis p (csym (N.to_nat (size p)) k) in
+  n (abs q) = n (img k (abs p)) /\ sq (abs q) = sq (img k (abs p)) /\ ply (abs q) = ply (img k (abs p)).
+Proof. exact image_abs_board. Qed.
+Print Assumptions C14_image_abs_board.
+
+(* THE MISSING LINK: the code-shaped image abstracts to the specification-level image *)
+Theorem C14_image_abs : forall k p, k < 8 -> pos_ok p -> TpsFacts5.reserves_match_board p -> Move.black_wins_ties p = false ->
+  abs (image gen_basis p (csym (N.to_nat (size p)) k)) = img k (abs p).
+Proof. exact image_abs. Qed.
+Print Assumptions C14_image_abs.
+
+(* the same in the spelling of Symmetry.symmetries: the k-th entry of syms (size p) *)
+Theorem C14_image_abs_nth : forall k p, k < 8 -> pos_ok p -> TpsFacts5.reserves_match_board p -> Move.black_wins_ties p = false ->
+  abs (image gen_basis p (nth k (syms (Z.of_N (size p))) (fun x y => (x, y)))) = img k (abs p).
+Proof. exact image_abs_nth. Qed.
+Print Assumptions C14_image_abs_nth.
+
+Theorem C14_image_reserves_match : forall k p, k < 8 -> pos_ok p -> TpsFacts5.reserves_match_board p ->
+  TpsFacts5.reserves_match_board (image gen_basis p (csym (N.to_nat (size p)) k)).
+Proof. exact image_reserves_match. Qed.
+Print Assumptions C14_image_reserves_match.
+
+(* ---- DESIGN 5.14 move_equivariant for q := image p s: for EVERY transformable raw move other than Pass whose rules successor has no stack
+   above 64, TransformMove succeeds, Move on p and Move on the image succeed/fail together, never panic, and the results correspond ---- *)
+Theorem C14_move_equivariant : forall k p m, k < 8 -> pos_ok p -> TpsFacts5.reserves_match_board p -> Move.black_wins_ties p = false ->
+  fits64 p m -> transformable m -> mT m <> 1%N ->
+  let s := csym (N.to_nat (size p)) k in
+  match transform_move s m with
+  | Ok m' => match mv p m, mv (image gen_basis p s) m' with
+             | Ok p', Ok q' => abs q' = img k (abs p') /\ pos_ok p' /\ pos_ok q'
+             | Err, Err => True
+             | _, _ => False
+             end
+  | _ => False
+  end.
+Proof. exact image_move_equivariant. Qed.
+Print Assumptions C14_move_equivariant.
+
+(* the commuting square of the property text, field for field (bitboards, heights, stack words, hash, reserves, ply):
+   Move (image p) (TransformMove m) = image (Move p m); both fail together; the successor satisfies all hypotheses again *)
+Theorem C14_move_commutes : forall k p m, k < 8 -> pos_ok p -> TpsFacts5.reserves_match_board p -> Move.black_wins_ties p = false ->
+  fits64 p m -> transformable m -> mT m <> 1%N ->
+  let s := csym (N.to_nat (size p)) k in
+  match transform_move s m with
+  | Ok m' => match mv p m with
+             | Ok p' => mv (image gen_basis p s) m' = Ok (image gen_basis p' s) /\
+                        pos_ok p' /\ TpsFacts5.reserves_match_board p' /\ Move.black_wins_ties p' = false
+             | Err => mv (image gen_basis p s) m' = Err
+             | Panic => False
+             end
+  | _ => False
+  end.
+Proof. exact image_move_commutes. Qed.
+Print Assumptions C14_move_commutes.
+
+(* ---- DESIGN 5.14 gameover_invariant for q := image p s ---- *)
+Theorem C14_gameover_invariant : forall k p, k < 8 -> pos_ok p -> TpsFacts5.reserves_match_board p -> Move.black_wins_ties p = false ->
+  let q := image gen_basis p (csym (N.to_nat (size p)) k) in
+  game_over q = game_over p /\ win_details q = win_details p.
+Proof. exact image_gameover_invariant. Qed.
+Print Assumptions C14_gameover_invariant.
+
+(* an image undone by the inverse symmetry is the position itself, field for field *)
+Theorem C14_image_image_inv : forall k p, k < 8 -> pos_ok p -> TpsFacts5.reserves_match_board p -> Move.black_wins_ties p = false ->
+  let n := N.to_nat (size p) in
+  image gen_basis (image gen_basis p (csym n k)) (csym n (Sym.inv k)) = p.
+Proof. exact image_image_inv. Qed.
+Print Assumptions C14_image_image_inv.
+
+(* ---- DESIGN 5.14 symmetries_exact ----
+   firsts key seen l (Import5.v): the elements of l whose key is neither in `seen` nor carried by an earlier element of l (order kept);
+   hkey (q, k) := Hash() of q;  all_images p := [(imgk p 0, 0); ...; (imgk p 7, 7)].
+   Symmetries(p) IS the list of the eight rebuilt images with every entry dropped whose Hash() occurred before: no hypothesis. *)
+Theorem C14_symmetries_firsts : forall p, symmetries gen_basis p = firsts hkey [] (all_images p).
+Proof. exact symmetries_firsts. Qed.
+Print Assumptions C14_symmetries_firsts.
+
+(* no_collision p: two of the eight images with the same Hash() show the same squares.  Then: (A) every entry is (imgk p k, k), k < 8,
+   satisfies the invariant, and k is the first index producing that image; (B) every one of the eight images is in the list (as a record),
+   paired with an index not above its own; (C) no two entries show the same board, no two have the same Hash(): each distinct image occurs
+   exactly once.  Only (B) uses no_collision: an image colliding with an earlier different one would be dropped. *)
+Theorem C14_symmetries_exact : forall p, pos_ok p -> no_collision p ->
+  let L := symmetries gen_basis p in
+  (forall q k, In (q, k) L -> k < 8 /\ q = imgk p k /\ pos_ok q /\ forall i, i < k -> imgk p i <> q) /\
+  (forall k, k < 8 -> exists j, j <= k /\ In (imgk p k, j) L) /\
+  NoDup (map (fun x => sq (abs (fst x))) L) /\ NoDup (map hkey L).
+Proof. exact symmetries_exact. Qed.
+Print Assumptions C14_symmetries_exact.
+
+(* each listed position, paired with k, abstracts to the specification-level image img k *)
+Theorem C14_symmetries_abs : forall p q k, pos_ok p -> TpsFacts5.reserves_match_board p -> Move.black_wins_ties p = false ->
+  In (q, k) (symmetries gen_basis p) -> k < 8 /\ q = imgk p k /\ abs q = img k (abs p).
+Proof. exact symmetries_abs. Qed.
+Print Assumptions C14_symmetries_abs.
+
+(* NON-VACUITY.  p14 (5x5 after 14 plies, PreserveEx.v) satisfies the hypotheses; rotated (k = 6) the long slide m_long (left from e2, drops
+   2,1,1,1) becomes a slide up from b1, the square commutes, the image differs from p14, GameOver agrees. *)
+Theorem C14_nonvacuous_image :
+  exists m' p', transform_move (csym 5 6) PreserveEx.m_long = Ok m' /\ m' <> PreserveEx.m_long /\ mv PreserveEx.p14 PreserveEx.m_long = Ok p' /\
+    mv (image gen_basis PreserveEx.p14 (csym 5 6)) m' = Ok (image gen_basis p' (csym 5 6)) /\
+    White (image gen_basis PreserveEx.p14 (csym 5 6)) <> White PreserveEx.p14 /\
+    game_over (image gen_basis PreserveEx.p14 (csym 5 6)) = game_over PreserveEx.p14.
+Proof. exact ex_image_move_commutes. Qed.
+Print Assumptions C14_nonvacuous_image.
+
+(* p14 has eight different images; the empty 5x5 board one; the board after a1 four (indices 0, 1, 2 and 4: the corner is fixed by one diagonal) *)
+Theorem C14_nonvacuous_symmetries :
+  pos_ok PreserveEx.p14 /\ no_collision PreserveEx.p14 /\ map snd (symmetries gen_basis PreserveEx.p14) = [0; 1; 2; 3; 4; 5; 6; 7].
+Proof. exact ex_symmetries_p14. Qed.
+Print Assumptions C14_nonvacuous_symmetries.
+
+Theorem C14_nonvacuous_symmetries_sym :
+  pos_ok PreserveEx.start5 /\ no_collision PreserveEx.start5 /\ map snd (symmetries gen_basis PreserveEx.start5) = [0] /\
+  pos_ok p_a1 /\ no_collision p_a1 /\ map snd (symmetries gen_basis p_a1) = [0; 1; 2; 4].
+Proof. exact ex_symmetries_sym. Qed.
+Print Assumptions C14_nonvacuous_symmetries_sym.
 
 (* non-vacuity: SymRules3.ex_equivariant (5x5, a two-high stack slides, k = 6), ex_equivariant_illegal, ex_road (3x3 road and its image),
    SymCode1.ex_transform. *)
